@@ -162,6 +162,20 @@ CLAIMED['C11'] = (
     're-parse, PRO framing, ClearKey endpoint, ContentProtection elements (see evidence not_covered).',
     'contract-based deductive verification (symbolic execution over fixed-length byte lists, z3), native replay')
 
+CLAIMED['C10'] = (
+    'DESIGN.md 0a (C10)',
+    'Reduced scope. Proof for every combination of selected systems and hooks: the init-segment handler appends exactly one pssh box '
+    'to moov per DRM context that carries a moov hook, in the order the contexts are yielded, each built by that hook for the '
+    'representation\'s default KID; a clear track gets none; mehd is removed exactly in live mode (if present); an unindexed file is '
+    '404. PlayReady / ClearKey / Marlin.generate_manifest_context create the moov / cenc / pro hooks exactly for the requested '
+    'locations (Marlin none; PlayReady cenc only above version 1.0). PlayReady.generate_pssh: RAW_SYSTEM_ID, version 0 without key '
+    'ids for fewer than two keys, version 1 with every key id otherwise, payload = the PRO; ClearKey.generate_pssh: common system '
+    'id, version 1, every key id, no payload. The pssh box encodes and parses back identically (group mp4).',
+    'Trusted / not covered: byte identity of the untouched boxes (rests on Mp4Atom.encode re-emitting unmodified boxes), size '
+    'propagation of append / remove, DrmContext construction and iteration order (assumed name order), load_fragment, the PRO '
+    'bytes (C11). The statement\'s byte-level diff of a whole response is NOT decided - only these ingredients are.',
+    'contract-based deductive verification (AST->VC generator, z3 + cvc5), native replay (source extraction for the handler)')
+
 CLAIMED['C04'] = (
     'DESIGN.md 4 C04 / 0a',
     'Reduced scope. Proof, per box class (mfhd, mehd, trex, tfdt, tfhd with all 2^5 optional-field combinations, trun header, '
@@ -193,7 +207,6 @@ CLAIMED['C03'] = (
 NOT_APPLICABLE = {
     'C05': 'XML documents come out of Jinja templates rendered by an external engine; no function contract reaches them and the app cannot be instantiated offline (flask_login missing).',
     'C07': 'Identity of string transducers (quote_plus, regex date parsing, split) over a registry built with getattr; SMT string solvers leave these undecided; a proof over only int/bool options would not decide the property.',
-    'C10': 'Byte-level diff of a handler response with DB-selected DRM contexts; handlers cannot be imported here. Contract-expressible ingredients are covered under C11/C04.',
     'C15': 'Quantifies over the route table, roles and database state; decorators and handlers cannot be imported; no per-function contract expresses it.',
     'C17': 'Histories of ORM operations and cascades; needs a model of SQLAlchemy, which would be proving a model, not the code.',
     'C18': 'Whole-system differential property of the validator over generated streams.',
